@@ -73,7 +73,7 @@ func checkKindSwitches(c *Ctx, rule string, specs []kindSwitchSpec) {
 			req = rangeKey
 		}
 		for _, sw := range sws {
-			failStop := sw.Default != nil && clauseFailStop(sw.Default)
+			failStop := sw.Default != nil && clauseFailStop(pkg, sw.Default)
 			var missing []string
 			for k := range req {
 				if _, ok := sw.Cases[k]; !ok {
@@ -132,7 +132,7 @@ func surveyKindSwitches(c *Ctx, rule string, pkgPaths []string, exceptions map[s
 						nr++
 					}
 				}
-				failStop := sw.Default != nil && clauseFailStop(sw.Default)
+				failStop := sw.Default != nil && clauseFailStop(pkg, sw.Default)
 				check := func(what string, req map[int64]bool) {
 					var missing []string
 					for k := range req {
